@@ -4,7 +4,7 @@ import warnings
 from warnings import warn
 import numpy as np
 from scipy import sparse
-from scipy.sparse.linalg import aslinearoperator
+from scipy.sparse.linalg import aslinearoperator, LinearOperator
 from ..util.linalg import norm
 from ..util import make_system
 
@@ -89,6 +89,8 @@ def cgne(A, b, x0=None, tol=1e-5, criteria='rr',
     # Store the conjugate transpose explicitly as it will be used much later on
     if sparse.issparse(A):
         AH = A.T.conjugate()
+    elif isinstance(A, LinearOperator):
+        AH = A.H
     else:
         # avoid doing this since A may be a different sparse type
         AH = aslinearoperator(np.asarray(A).conj().T)
